@@ -55,7 +55,13 @@ func (fv *FV) stepRead(st *State, cur Term, s PathStep, quiet bool) Term {
 			}
 			return bigVal(cur)
 		case KOpaque:
-			// recursive reference: uninterpreted deref
+			// recursive reference: uninterpreted (read-only) deref
+			if tgt, _ := fv.ss.RefTarget(cur.Sort); tgt != nil {
+				if !quiet {
+					fv.assert(st, "nil-deref", tNot(tEq(cur, Term{fv.ss.Zero(cur.Sort), cur.Sort})), s.Pos, "pointer dereference")
+				}
+				return Term{sx("deref_"+cur.Sort.Name, cur.S), tgt}
+			}
 			return cur
 		}
 		fv.abort(s.Pos, "dereference of sort %s", cur.Sort.Name)
@@ -121,6 +127,9 @@ func (fv *FV) update(st *State, cur Term, steps []PathStep, v Term, pos token.Po
 	}
 	if len(steps) == 0 {
 		if v.Sort != cur.Sort {
+			if c, ok := fv.coerceRef(v, cur.Sort); ok {
+				return c
+			}
 			fv.abort(pos, "assignment of sort %s to location of sort %s", v.Sort.Name, cur.Sort.Name)
 		}
 		return v
